@@ -3,7 +3,7 @@
  *
  * Included unchanged from the repository's working tree (one translation unit, so
  * statics are reachable): lib/netio.c (net_read, readinput, netnwrite, net_writen,
- * data_pending: the lineinn buffer shared by clear text and TLS), qremote/status.c,
+ * drop_stale_input: the lineinn buffer shared by clear text and TLS), qremote/status.c,
  * qremote/reply.c (netget, dieerror), qremote/client.c (getrhost), qremote/greeting.c
  * (greeting, esmtp_check_extension), qremote/smtproutes.c (expect_tls, clientcertbuf,
  * free_smtproute_vals), qremote/starttlsr.c (tls_init), qremote/conn.c (tryconn),
@@ -22,8 +22,7 @@
  * case:   c8 <route> <n> then per MX (= one connection attempt)
  *           <flags> <tlsa> <hs> <verify> <npre> <npost> <ntls> <pre segments> <post segments> <tls segments>
  *         <route>  bit0: the route has its own client certificate (smtproutes.d clientcert=: expect_tls)
- *         <flags>  bit0 the MX has a name, bit1 control/tlshosts/<name>.pem exists, bit2 it loads,
- *                  bit3 what follows the STARTTLS reply has already arrived when the client looks (poll, timeout 0)
+ *         <flags>  bit0 the MX has a name, bit1 control/tlshosts/<name>.pem exists, bit2 it loads
  *         <tlsa>   pairs (cert_usage, result of SSL_dane_tlsa_add + 1)
  *         <hs>     0 handshake succeeds, 1 ETIMEDOUT, 2 ECONNRESET, 3 EPIPE, 4 EPROTO, 5 EIO
  *         <verify> value of SSL_get_verify_result (0 = X509_V_OK)
@@ -283,7 +282,7 @@ static int h_poll(struct pollfd *p, nfds_t n, int t)
 {
 	(void)n;
 	if (p->events & POLLOUT) { p->revents = POLLOUT; return 1; }
-	if (t == 0 && c_clear && !seg_partial(c_clear) && !(c_cur >= 0 && (cc[c_cur].flags & 8))) { p->revents = 0; return 0; }
+	(void)t;
 	p->revents = POLLIN;
 	return 1;
 }
